@@ -44,8 +44,8 @@ def oracle_run(cfg):
     shp = (cfg['nb'], cfg['C'], cfg['N']) if d1 else (cfg['nb'], cfg['C'], cfg['H'], cfg['W'])
     X = r.standard_normal(shp)
     try:
-        fwd = (DWT1DForward if d1 else DWTForward)(J=J, wave=wn, mode=mode)
-        inv = (DWT1DInverse if d1 else DWTInverse)(wave=wn, mode=mode)
+        fwd = (DWT1DForward if d1 else DWTForward)(J=J, wave=wn if d1 else c01.wave_arg(cfg, 'dec'), mode=mode)
+        inv = (DWT1DInverse if d1 else DWTInverse)(wave=wn if d1 else c01.wave_arg(cfg, 'rec'), mode=mode)
         y = inv(fwd(torch.tensor(X))).numpy()
     except (RuntimeError, ValueError) as e:
         if mode == 'reflect':
@@ -60,7 +60,7 @@ def oracle_run(cfg):
     if d1:
         ref = pywt.waverec(pywt.wavedec(X, wn, mode=mode, level=J, axis=-1), wn, mode=mode, axis=-1)
     else:
-        ref = pywt.waverec2(pywt.wavedec2(X, wn, mode=mode, level=J, axes=(-2, -1)), wn, mode=mode, axes=(-2, -1))
+        ref = pywt.waverec2(pywt.wavedec2(X, c01.pywt_arg(cfg), mode=mode, level=J, axes=(-2, -1)), c01.pywt_arg(cfg), mode=mode, axes=(-2, -1))
     err_pywt = float(np.abs(ref[sl] - X).max())
     err = float(np.abs(y[sl] - X).max())
     tol = max(1e-9 * dwtfam.gain(wn, J, len(ext)), 4 * err_pywt)
